@@ -669,6 +669,7 @@ theorem step_wf (c : Ciphers) (kb : KB) (hw : kb.header.WF) (op : Op) : (step c 
         exact ⟨hw.ver, hw.ku, hw.alg, hw.mou, hw.vn, hw.ex, hw.res, this.1, this.2⟩
   | str => exact hw
   | dump n => exact hw
+  | setKbpk k => exact hw
 
 /-- **invariant**: after any sequence of operations on a fresh object (or one constructed from a string) the header is
 well formed — so `wrap_errors` applies to every object the public API can produce -/
